@@ -28,8 +28,15 @@ ASSUMPTIONS = ['mutations keep the AST valid Python (Dict keys/values in lock-st
 BOUNDS = {'quick': '40 programs depth 1 (all positions x 14 mutation kinds, default and non-default ambient options); depth 2 on 12 programs; second round on 12 programs',
           'thorough': '30 programs depth 1; depth 2 on 16; depth 3 on 3; second round everywhere'}
 
-PROG_IDX = tuple(range(0, 40))
-PROG_IDX_T = tuple(range(0, 40))
+PROGRAMS = list(PROGRAMS) + [  # primitives in tight layouts: literals touching keywords / dots, names containing 'as', relative imports
+    "x = not'b'\ny = 'a'.b\nz = 1 if'a'else 2\nw = ['c',-1]",
+    "import asab as a, fromm\nfrom .a.b import c as d\nfrom .. import e\nfrom ...f import (g as h)",
+    "def isnot(a, inb=1, *args, **kw): pass\nclass Cas(B): pass\ntry: pass\nexcept E as e: pass\nglobal_ = f(k=1, **kk)",
+    "match s:\n case {**rest}: pass\n case [*star] if star: pass\n case p.q as r: pass\n case None: pass",
+]
+N_SHARED13 = len(PROGRAMS) - 4
+PROG_IDX = tuple(range(0, 40)) + tuple(range(N_SHARED13, N_SHARED13 + 4))
+PROG_IDX_T = PROG_IDX
 D2 = (0, 1, 3, 7, 10, 11, 15, 16, 20, 22, 23, 28)
 
 
@@ -79,6 +86,20 @@ def enumerate_muts(tree):
             out.append(('const', path))
         if isinstance(child, ast.BinOp):
             out.append(('op', path))
+    for path, node in O.iter_nodes(tree):  # primitive fields: identifiers, numbers, constants changed in place
+        ncls = node.__class__.__name__
+        in_f = any(isinstance(O.get_path(tree, path[:k]), (ast.JoinedStr, ast.FormattedValue)) for k in range(len(path)))
+        for field, typ, card in O.GRAMMAR.get(ncls, ()):
+            if typ == 'identifier' and card != '*' and (ncls, field) != ('Name', 'id'):
+                cur = getattr(node, field)
+                if cur is not None and cur != '*':
+                    out.append(('prim', path, field, 0))
+                if card == '?' and (ncls, field) in (('alias', 'asname'), ('ExceptHandler', 'name')):
+                    out.append(('prim', path, field, 1))
+            elif (ncls, field) == ('ImportFrom', 'level'):
+                out += [('prim', path, field, 0), ('prim', path, field, 1)]
+            elif (ncls, field) == ('Constant', 'value') and not in_f and not isinstance(node.value, (bytes, type(...))):
+                out += [('prim', path, field, k) for k in range(4)]
     for path, node in O.iter_nodes(tree):
         for field, typ, card in O.GRAMMAR.get(node.__class__.__name__, ()):
             if card != '*':
@@ -141,6 +162,26 @@ def apply_mut(fst, tree, m):
             for p2, n2 in O.iter_nodes(tree):
                 if n2 is node:
                     touched.add(tuple(p2))
+        return touched
+    if kind == 'prim':
+        path, field, k = m[1], m[2], m[3]
+        node = O.get_path(tree, path)
+        cur = getattr(node, field)
+        if field == 'level':
+            new = (0 if node.module else 1) if k == 0 else (cur or 0) + 2
+        elif field == 'value':
+            new = [True, None, 7, 'zz'][k]
+            if new == cur and type(new) is type(cur):
+                new = 8.5
+        elif k == 1:
+            new = None if cur is not None else 'nn'
+        else:
+            new = (cur or '') + '_p' if cur != 'zz' else 'yy'
+        setattr(node, field, new)
+        touched = {tuple(path)}
+        for p2, n2 in O.iter_nodes(tree):
+            if n2 is node:
+                touched.add(tuple(p2))
         return touched
     path, field = m[1], m[2]
     lst = getattr(O.get_path(tree, path), field)
